@@ -142,9 +142,9 @@ func readContractLines(path string, goFile bool) ([]rawClause, error) {
 func splitTags(text string) (string, []string, string) {
 	m := tagRe.FindStringSubmatch(text)
 	if m == nil {
-		return text, nil, ""
+		return strings.TrimSpace(text), nil, ""
 	}
-	rest := text[:len(text)-len(m[0])]
+	rest := strings.TrimSpace(text[:len(text)-len(m[0])])
 	var tags []string
 	label := ""
 	for _, t := range strings.FieldsFunc(m[1], func(r rune) bool { return r == ',' || r == ' ' }) {
